@@ -150,8 +150,15 @@ pub fn run(ctx: &Ctx, with_reader_side: bool) -> Report {
         // must be the same well-formed file; C09 enumerates such histories exhaustively)
         let mid_finalize: Option<usize> = if i % 5 == 2 && nshapes >= 2 { Some(1 + i % (nshapes - 1)) } else { None };
         let by_path = i % 3 == 1;
-        let name = format!("t{}_{}", t, i);
-        let shp_path = format!("{}/{}.shp", dir, name);
+        // path-created pairs rotate through file-name styles (dots inside the stem, upper-case
+        // extension, spaces / non-ASCII); the index always sits next to the .shp as <stem>.shx
+        let name = match if by_path { (i / 3) % 4 } else { 0 } {
+            1 => format!("t{}.{}.v2", t, i),
+            2 => format!("t{} {} \u{e9}", t, i),
+            _ => format!("t{}_{}", t, i),
+        };
+        let upper = by_path && (i / 3) % 4 == 3;
+        let shp_path = format!("{}/{}.{}", dir, name, if upper { "SHP" } else { "shp" });
         let shx_path = format!("{}/{}.shx", dir, name);
         rep.eval();
         rep.class(&format!("{}:{}:{}{}", type_name(t), if by_path { "from_path" } else { "cursor" }, if finalize { "finalize" } else { "drop" }, if mid_finalize.is_some() { "+mid-finalize" } else { "" }));
@@ -210,6 +217,7 @@ pub fn run(ctx: &Ctx, with_reader_side: bool) -> Report {
         };
         let line = J::obj(vec![
             ("file", J::s(name.clone())),
+            ("shp_file", J::s(format!("{}.{}", name, if upper { "SHP" } else { "shp" }))),
             ("case", J::s(case.clone())),
             ("type", J::Int(if nshapes == 0 { 0 } else { t as i64 })),
             ("route", J::s(if by_path { "from_path" } else { "cursor" })),
